@@ -178,10 +178,15 @@ def gen_labels(rng, mtype, thorough):
         vi = rng.randrange(n_videos) if fi else 0
         v = videos[vi]
         if mtype == "single":
-            k = 1
+            k = 1 if rng.random() < 0.9 else 2     # two user instances in a single-instance label set: both kept
         else:
             k = rng.choice([1, 2, 2, 3])
         insts = [{"pts": gen_pts(rng, n_nodes, v["h"], v["w"], p_nan), "pred": False} for _ in range(k)]
+        if mtype == "single" and rng.random() < 0.12:
+            # a predicted instance next to the user instance (what SLEAP leaves after a correction):
+            # get_max_instances counts it, the user filter removes it (finding F181)
+            insts.insert(rng.randrange(len(insts) + 1),
+                         {"pts": gen_pts(rng, n_nodes, v["h"], v["w"], 0), "pred": True})
         if mtype != "single":
             r = rng.random()
             if r < 0.15:        # an all-NaN (empty) instance somewhere
@@ -197,6 +202,18 @@ def gen_labels(rng, mtype, thorough):
             style = "ramp"
         frames.append({"video": vi, "frame_idx": rng.randrange(4), "img_seed": rng.randrange(1 << 30),
                        "style": style, "insts": insts})
+    if rng.random() < 0.05:
+        # a labelled frame WITHOUT a non-empty instance (no instance at all / only all-NaN instances / user
+        # instances all-NaN next to a predicted one): skipped by the datasets, np.stack([]) in process_lf (F182)
+        vi = rng.randrange(n_videos)
+        v = videos[vi]
+        kind = rng.choice(["none", "nan", "nan_user_pred"])
+        insts = [] if kind == "none" else [{"pts": [None] * n_nodes, "pred": False}]
+        if kind == "nan_user_pred":
+            insts.append({"pts": gen_pts(rng, n_nodes, v["h"], v["w"], 0), "pred": True})
+        frames.insert(rng.randrange(len(frames) + 1),
+                      {"video": vi, "frame_idx": rng.randrange(4), "img_seed": rng.randrange(1 << 30),
+                       "style": "noise", "insts": insts})
     return {"source": "duck", "n_nodes": n_nodes, "edges": edges, "videos": videos, "frames": frames}
 
 
@@ -233,11 +250,14 @@ def round_half_even_exact(q):
 def float_hazard(L, cfg):
     """Inputs on which float64 evaluation of round(h*ratio) / int(h*scale) could
     legitimately fall on the other side of the exact rational (excluded, counted)."""
-    if cfg["max_hw"][0] is None:
-        return False
-    mh, mw = cfg["max_hw"]
+    return any(_float_hazard(L, b) for b in {ds_hw(cfg, False), st_hw(cfg), dp_max_hw(L, cfg)})
+
+
+def _float_hazard(L, bounds):
     for v in L["videos"]:
         h, w = v["h"], v["w"]
+        mh = h if bounds[0] is None else bounds[0]
+        mw = w if bounds[1] is None else bounds[1]
         if (h, w) != (mh, mw):
             hr, wr = F(mh, h), F(mw, w)
             eff = wr if hr > wr else hr
@@ -266,13 +286,28 @@ def gen_cfg(rng, mtype, L, thorough):
     elif r < 0.6:       # max_height = max_width = None everywhere: no size matching at all
         max_none = True
     n = L["n_nodes"]
+    # data_config.preprocessing.max_height / max_width: unset, equal to the max_hw argument, or DIFFERENT from it
+    # (ModelTrainer hands the labels' maximum to the datasets whatever the config says: finding F180)
+    arg = (None, None) if max_none else (maxh, maxw)
+    r = rng.random()
+    if r < 0.45:
+        cfg_hw = (None, None)
+    elif r < 0.86:
+        cfg_hw = arg
+    else:
+        bh = maxh if not max_none else max(v["h"] for v in L["videos"])
+        bw = maxw if not max_none else max(v["w"] for v in L["videos"])
+        if rng.random() < 0.75:
+            cfg_hw = (bh + rng.choice([0, 8, 16, 32, 64]), bw + rng.choice([0, 8, 24, 64]))
+        else:
+            cfg_hw = (max(24, bh - rng.choice([8, 16])), max(24, bw - rng.choice([0, 8, 16])))
     crop = rng.choice([24, 32, 40, 48, 64, 33, 50])
     crop_hw = (crop, crop) if rng.random() < 0.8 else (crop, rng.choice([24, 32, 48, 56]))
     return {
         "mtype": mtype, "scale": scale, "max_stride": rng.choice([1, 16, 32, 16, 32, 2, 8]),
         "is_rgb": rng.random() < 0.4 or any(fr["style"] == "ramp" for fr in L["frames"]),
         "user_only": rng.random() < 0.8, "max_hw": (None, None) if max_none else (maxh, maxw),
-        "cfg_max_hw": rng.random() < 0.5,
+        "cfg_hw": cfg_hw,
         "anchor": rng.choice([None] + list(range(n))), "crop_hw": crop_hw,
         "sigma": rng.choice([F(3, 2), F(5, 2), F(1), F(5)]), "stride": rng.choice([1, 2, 2, 4]),
         "psigma": rng.choice([F(4), F(15), F(5, 2)]), "pstride": rng.choice([2, 4, 4, 8]),
@@ -280,8 +315,68 @@ def gen_cfg(rng, mtype, L, thorough):
 
 
 # ------------------------------------------------------------------ running the implementation
+def cfg_hw_of(cfg):
+    """data_config.preprocessing.max_height / max_width (older corpus cases: a flag `cfg_max_hw`)."""
+    if "cfg_hw" in cfg:
+        return tuple(cfg["cfg_hw"])
+    return tuple(cfg["max_hw"]) if cfg.get("cfg_max_hw") else (None, None)
+
+
+def st_hw(cfg):
+    """the chunk functions: config value if not None else max_hw (Pipelines.st_maxh / st_maxw)"""
+    c, a = cfg_hw_of(cfg), tuple(cfg["max_hw"])
+    return (c[0] if c[0] is not None else a[0], c[1] if c[1] is not None else a[1])
+
+
+def ds_hw(cfg, fx180):
+    """the dataset classes: the max_hw argument only (Pipelines.ds_maxh / ds_maxw; fx180: like the chunk functions)"""
+    return st_hw(cfg) if fx180 else tuple(cfg["max_hw"])
+
+
+def eff_bounds(b, v):
+    return (v["h"] if b[0] is None else b[0], v["w"] if b[1] is None else b[1])
+
+
+def frame_empty(fr, user_only):
+    return not any(any(p is not None for p in i["pts"]) for i in effective_instances(fr, user_only))
+
+
+def sel_f180(L, cfg, fx):
+    """Pipelines.sel_F180 on some frame that yields a sample"""
+    uo = cfg.get("user_only", True)
+    return any(eff_bounds(ds_hw(cfg, fx["fx180"]), L["videos"][fr["video"]]) != eff_bounds(st_hw(cfg), L["videos"][fr["video"]])
+               for fr in L["frames"] if not frame_empty(fr, uo))
+
+
+def sel_f181(L, cfg, fx):
+    """Pipelines.sel_F181 on some frame that yields a sample"""
+    if cfg["mtype"] != "single" or fx["fx181"]:
+        return False
+    uo = cfg.get("user_only", True)
+    maxinst = max(len(fr["insts"]) for fr in L["frames"])
+    for fr in L["frames"]:
+        if frame_empty(fr, uo):
+            continue
+        num = sum(1 for i in effective_instances(fr, uo) if any(p is not None for p in i["pts"]))
+        if maxinst != 1 and maxinst != num:
+            return True
+    return False
+
+
+def sel_f182(L, cfg):
+    """Pipelines.sel_F182: a labelled frame without a non-empty instance"""
+    return any(frame_empty(fr, cfg.get("user_only", True)) for fr in L["frames"])
+
+
+SELECTORS = {
+    "F180": "config_max_hw_overrides_argument_in_chunk_functions_only",
+    "F181": "single_instance_dataset_pads_to_max_instances",
+    "F182": "chunk_functions_raise_on_frame_without_nonempty_instance",
+}
+
+
 def data_config(cfg, mods):
-    mh, mw = cfg["max_hw"] if cfg["cfg_max_hw"] else (None, None)
+    mh, mw = cfg_hw_of(cfg)
     return mods["DictConfig"]({
         "user_instances_only": bool(cfg.get("user_only", True)),
         "preprocessing": {"max_height": mh, "max_width": mw, "scale": float(cfg["scale"]),
@@ -421,8 +516,9 @@ def run_streaming_real(L, cfg, mods, out_dir, chunk_size):
 # ------------------------------------------------------------------ the composed legacy pipelines (pipelines.py)
 def dp_max_hw(L, cfg):
     """What SizeMatcher is built with: the config's bounds, or (both None) the provider's maximum over videos."""
-    if cfg["cfg_max_hw"] and cfg["max_hw"][0] is not None:
-        return tuple(cfg["max_hw"])
+    c = cfg_hw_of(cfg)
+    if c[0] is not None:
+        return c
     return max(v["h"] for v in L["videos"]), max(v["w"] for v in L["videos"])
 
 
@@ -460,14 +556,19 @@ def frame_has_user(fr):
     return any(not i["pred"] for i in fr["insts"])
 
 
-def dp_domain(L, cfg):
+def dp_domain(L, cfg, fx=None):
     """Where Props.c18_dp_*_pipeline prove the composed legacy pipeline equal to the in-memory dataset:
     every frame is kept by the reader, both size matchers only pad, top-down at scale 1."""
-    if cfg["max_hw"][0] is None:
+    fx = fx or FX
+    if ds_hw(cfg, fx["fx180"])[0] is None:
         return False                     # datasets: no size matching; SizeMatcher: pads to the provider's maximum
-    mh, mw = cfg["max_hw"]
+    mh, mw = ds_hw(cfg, fx["fx180"])
     if dp_max_hw(L, cfg) != (mh, mw):
         return False
+    if sel_f182(L, cfg):
+        return False                     # the reader raises on (or drops) a frame the dataset skips
+    if cfg["mtype"] == "single" and fx["fx181"] and max(len(fr["insts"]) for fr in L["frames"]) != 1:
+        return False                     # repaired dataset: no padding; the reader pads to max_instances
     if cfg.get("user_only", True) and not all(frame_has_user(fr) for fr in L["frames"]):
         return False
     for fr in L["frames"]:
@@ -475,6 +576,9 @@ def dp_domain(L, cfg):
         if not (v["h"] <= mh and v["w"] <= mw and (v["h"] == mh or v["w"] == mw)):
             return False
     return cfg["mtype"] != "centered" or cfg["scale"] == 1
+
+
+FX = {"fx180": False, "fx181": False}     # which repairs the code under test has (set by detect_fx at run time)
 
 
 DP_KEYS = {
@@ -523,6 +627,10 @@ def dp_model_terms(L, cfg, wt):
     for fi, fr in enumerate(L["frames"]):
         if uo and not frame_has_user(fr):
             continue
+        if frame_empty(fr, uo):
+            # LabelsReaderDP keeps the frame and np.stack([]) raises inside its __iter__ (mirrored here, not in Coq)
+            plan.append((fi, None, None))
+            break
         ft = frame_term(L, fr, maxinst, uo)
         if cfg["mtype"] == "centered":
             ne = [i for i in effective_instances(fr, uo) if any(p is not None for p in i["pts"])]
@@ -662,11 +770,12 @@ def oracle(L, cfg, res, mods):
     for fw in FWS:
         if isinstance(res[fw], Exception):
             bad.append(((fw,), f"{fw} raised {type(res[fw]).__name__}: {res[fw]}"))
-    if bad:
+    if isinstance(res["Mem"], Exception) or isinstance(res["Npc"], Exception):
         return bad
     if isinstance(res.get("Lit"), Exception):
         bad.append((("Lit",), f"litdata.optimize + *StreamingDataset raised {type(res['Lit']).__name__}: {str(res['Lit'])[:300]}"))
-    pairs = [("Mem", "Npc"), ("Mem", "Str")] + ([("Mem", "Lit")] if isinstance(res.get("Lit"), list) else [])
+    pairs = [("Mem", "Npc")] + ([("Mem", "Str")] if not isinstance(res["Str"], Exception) else []) + \
+            ([("Mem", "Lit")] if isinstance(res.get("Lit"), list) else [])
     for pair in pairs:
         if not in_domain(cfg, pair):
             continue
@@ -703,7 +812,7 @@ def effective_instances(fr, user_only=True):
 
 def cfg_term(cfg, L, wt, max_hw=None):
     a = "None" if cfg["anchor"] is None else f"(Some {cfg['anchor']}%nat)"
-    mh, mw = max_hw or cfg["max_hw"]
+    mh, mw = max_hw if max_hw is not None else cfg["max_hw"]
     return ("{| c_rgb := %s; c_maxh := %s; c_maxw := %s; c_scale := %s; c_ms := %s; c_anchor := %s; "
             "c_croph := %s; c_cropw := %s; c_sigma := %s; c_stride := %d%%nat; c_psigma := %s; c_pstride := %d%%nat; "
             "c_edges := %s; c_wt := %s |}") % (
@@ -725,6 +834,8 @@ def sample_plan(L, cfg):
     """[(frame index, k or None)] in the order every framework enumerates its samples."""
     plan = []
     for fi, fr in enumerate(L["frames"]):
+        if frame_empty(fr, cfg.get("user_only", True)):
+            continue            # skipped by the datasets; the chunk functions raise on it (F182)
         if cfg["mtype"] == "centered":
             ne = [i for i in effective_instances(fr, cfg.get("user_only", True))
                   if any(p is not None for p in i["pts"])]
@@ -734,15 +845,50 @@ def sample_plan(L, cfg):
     return plan
 
 
+def x_term(cfg, fx):
+    c, a = cfg_hw_of(cfg), tuple(cfg["max_hw"])
+    return ("{| x_cfgh := %s; x_cfgw := %s; x_argh := %s; x_argw := %s; x_fx180 := %s; x_fx181 := %s |}" % (
+        core.copt(c[0], core.cz), core.copt(c[1], core.cz), core.copt(a[0], core.cz), core.copt(a[1], core.cz),
+        core.cbool(fx["fx180"]), core.cbool(fx["fx181"])))
+
+
+def enum_terms(L, cfg):
+    """Pipelines.fw_counts for the three frameworks: per frame, how many samples; null = raises"""
+    maxinst = max(len(fr["insts"]) for fr in L["frames"])
+    kd = {"single": "KSingle", "bottomup": "KBottomUp", "centroid": "KCentroid", "centered": "KCentered"}[cfg["mtype"]]
+    frames = core.clist(L["frames"], lambda fr: frame_term(L, fr, maxinst, cfg.get("user_only", True)))
+    return [f"ECount {kd} {fw} {frames}" for fw in FWS]
+
+
+def enum_check(L, cfg, res, counts):
+    """the real frameworks' enumeration (which frames, how many samples each, or an exception) vs fw_counts"""
+    for fw, cnt in zip(FWS, counts):
+        r = res[fw]
+        if cnt is None:
+            if not isinstance(r, Exception):
+                return f"{fw}: the model says the framework raises, the code returned {len(r)} samples"
+            if not (isinstance(r, ValueError) and "at least one array" in str(r)):
+                return f"{fw}: the model says np.stack([]) raises ValueError, the code raised {type(r).__name__}: {r}"
+            continue
+        if isinstance(r, Exception):
+            return f"{fw}: raised {type(r).__name__}: {r}; the model yields {sum(cnt)} samples"
+        want = [(L["frames"][fi]["video"], L["frames"][fi]["frame_idx"]) for fi, n in enumerate(cnt) for _ in range(n)]
+        got = [(int(x["video_idx"]), int(x["frame_idx"])) for x in r]
+        if want != got:
+            return f"{fw}: samples come from (video, frame_idx) {got}, the model's enumeration is {want}"
+    return None
+
+
 def model_terms(L, cfg, wt):
     maxinst = max(len(fr["insts"]) for fr in L["frames"])        # get_max_instances: before any filtering
-    ct = cfg_term(cfg, L, wt)
+    ct = cfg_term(cfg, L, wt, max_hw=(None, None))               # the bounds come from x (fw_cfg), per framework
+    xt = x_term(cfg, FX)
     terms = []
     for fi, k in sample_plan(L, cfg):
         ft = frame_term(L, L["frames"][fi], maxinst, cfg.get("user_only", True))
         t = {"single": "Single", "bottomup": "BottomUp", "centroid": "Centroid"}.get(cfg["mtype"]) or f"(Centered {k}%nat)"
         for fw in FWS:
-            terms.append(f"CPipe {t} {fw} {ct} {ft}")
+            terms.append(f"CPipeX {t} {fw} {xt} {ct} {ft}")
     return terms
 
 
@@ -912,6 +1058,16 @@ def gen_block(rng, kind):
             if all(abs((k * eff) % 1 - F(1, 2)) > F(1, 1000) for k in (h, w)):
                 break
         b.update(mh=mh, mw=mw, mode=mode)
+    elif kind == "smrun":
+        # SizeMatcher as a STATEFUL iteration: 2-3 images of different sizes through ONE block object; a None bound
+        # is fixed by the first image (resizing.py: `self.max_height = img_height`), a later larger image raises
+        k = rng.choice([2, 3, 3])
+        sizes = [(h, w)] + [(rng.choice([h, h, h - 5, h + 6, 24]), rng.choice([w, w, w - 4, w + 7, 31])) for _ in range(k - 1)]
+        mode = rng.choice(["none_none", "some_none", "none_some", "some_some"])
+        big_h, big_w = max(a for a, _ in sizes), max(b_ for _, b_ in sizes)
+        mh = None if mode in ("none_none", "none_some") else rng.choice([big_h, big_h + 9, h])
+        mw = None if mode in ("none_none", "some_none") else rng.choice([big_w, big_w + 5, w])
+        b.update(sizes=sizes, mh=mh, mw=mw)
     elif kind == "rd":
         nf = rng.choice([1, 2])
         frames = []
@@ -1101,6 +1257,36 @@ def run_block(b, mods, wt):
             if abs(me - float(eff)) > 1e-9 * max(1, me):
                 return f"apply_sizematcher eff_scale {eff} vs model {me}"
         return r, terms, chk
+    if k == "smrun":
+        np = mods["np"]
+        imgs = []
+        for j, (hh, ww) in enumerate(b["sizes"]):
+            a = make_image(np, b["seed"] + j, hh, ww, b["c"], "noise")
+            imgs.append(torch.from_numpy(np.transpose(a, (2, 0, 1))).unsqueeze(0).float() / 255.0)
+        got, raised = [], False
+        try:
+            for ex in mods["rs"].SizeMatcher([{"image": im.clone()} for im in imgs], max_height=b["mh"], max_width=b["mw"]):
+                got.append(ex["image"])
+        except Exception:  # noqa: BLE001
+            raised = True
+        gs = core.clist(b["sizes"], lambda hw: geom_term(hw[0], hw[1], b["c"], True))
+        terms = [f"CBlockSizeMatcherRun {core.copt(b['mh'], core.cz)} {core.copt(b['mw'], core.cz)} {gs}"]
+
+        def chk(ms):
+            m = ms[0]
+            mraised = bool(m) and m[-1][3] == 1
+            outs = m[:-1] if mraised else m
+            if mraised != raised or len(outs) != len(got):
+                return (f"SizeMatcher over {b['sizes']} with bounds ({b['mh']}, {b['mw']}): the code yields {len(got)} images, "
+                        f"raised={raised}; the model {len(outs)}, raised={mraised}")
+            for j, (mo, t) in enumerate(zip(outs, got)):
+                (c, hh, ww), gx, gy, _, _ = mo[0]
+                if tuple(t.shape) != (1, c, hh, ww):
+                    return f"SizeMatcher image {j}: size {tuple(t.shape)} vs model {(c, hh, ww)}"
+                sh, sw = b["sizes"][j]
+                if not torch.equal(t[..., :sh, :sw], imgs[j]) or float(t[..., sh:, :].abs().sum()) or float(t[..., :, sw:].abs().sum()):
+                    return f"SizeMatcher image {j}: content moved / padding not zero"
+        return None, terms, chk
     if k == "rd":
         prov = mods["providers"]
         L1 = {"source": "duck", "n_nodes": b["n"], "edges": [], "videos": [{"n": 4, "h": b["h"], "w": b["w"], "c": b["c"]}],
@@ -1177,7 +1363,30 @@ def run_block(b, mods, wt):
         dp = first(em.PartAffinityFieldsGenerator([ex], sigma=b["sigma"], output_stride=b["stride"], edge_inds=e,
                                                   flatten_channels=flat))[0]
         fn = em.generate_pafs(pts.clone(), hw, b["sigma"], b["stride"], e, flat)
-        return eq(dp["part_affinity_fields"], fn), [], None
+        edges = core.clist(b["edges"], lambda ed: f"({ed[0]}%nat, {ed[1]}%nat)")
+        terms = [f"CBlockPaf {core.cbool(d)} {geom_term(b['h'], b['w'], b['c'], True)} {cinsts(b['insts'])} {edges}"
+                 for d in (True, False)]
+        dpv = dp["part_affinity_fields"]
+
+        def chk(ms):
+            # the model's in-image filter + get_edge_points (block: dp_paf_points, function: fn_paf_points) fed to the
+            # repo's make_multi_pafs must reproduce what the block / the function returned
+            xv, yv = em.make_grid_vectors(b["h"], b["w"], b["stride"])
+            ne = len(b["edges"])
+            for m, impl, who in zip(ms, (dpv, fn), ("PartAffinityFieldsGenerator", "generate_pafs")):
+                mo = m[0]
+                src, dst = mo[1], mo[5][0]
+                if len(src) != len(dst) or mo[3] != len(src):
+                    return f"{who}: model keeps {len(src)} sources / {len(dst)} destinations"
+                es = torch.stack([pts_tensor(i, mods) for i in src]) if src else torch.zeros((0, ne, 2))
+                ed = torch.stack([pts_tensor(i, mods) for i in dst]) if dst else torch.zeros((0, ne, 2))
+                want = em.make_multi_pafs(xv=xv, yv=yv, edge_sources=es, edge_destinations=ed, sigma=b["sigma"])
+                if flat:
+                    want = want.reshape(ne * 2, want.shape[-2], want.shape[-1])
+                rr = close(impl.float(), want.float(), 1e-5, 0, mods)
+                if rr:
+                    return f"{who} vs make_multi_pafs on the animals the model's filter keeps ({len(src)} of {len(b['insts'])}): {rr}"
+        return eq(dpv, fn), terms, chk
     raise ValueError(k)
 
 
@@ -1210,6 +1419,8 @@ def fix_case(c):
         for i in fr["insts"]:
             i["pts"] = [None if p is None else tuple(p) for p in i["pts"]]
     cfg["max_hw"], cfg["crop_hw"] = tuple(cfg["max_hw"]), tuple(cfg["crop_hw"])
+    if "cfg_hw" in cfg:
+        cfg["cfg_hw"] = tuple(cfg["cfg_hw"])
     return c
 
 
@@ -1244,6 +1455,52 @@ def detect_write_through(mods):
     return not bool(torch.isnan(pts[0, 0, 0]).any())
 
 
+def _witness_case(kind):
+    pts = [(F(20), F(30)), (F(40), F(44))]
+    insts = [{"pts": pts, "pred": False}]
+    frames = [{"video": 0, "frame_idx": 0, "img_seed": 1, "style": "noise", "insts": insts}]
+    cfg = {"mtype": "single", "scale": F(1), "max_stride": 1, "is_rgb": False, "user_only": True, "max_hw": (64, 64),
+           "cfg_hw": (None, None), "anchor": None, "crop_hw": (32, 32), "sigma": F(3, 2), "stride": 2,
+           "psigma": F(4), "pstride": 4}
+    if kind == "F180":
+        cfg["cfg_hw"] = (128, 128)
+    elif kind == "F181":
+        insts.append({"pts": [(F(21), F(31)), (F(41), F(45))], "pred": True})
+    else:
+        frames.append({"video": 0, "frame_idx": 1, "img_seed": 2, "style": "noise", "insts": []})
+        cfg["mtype"] = "bottomup"
+    L = {"source": "duck", "n_nodes": 2, "edges": [(0, 1)], "videos": [{"n": 4, "h": 64, "w": 64, "c": 1}], "frames": frames}
+    return {"labels": L, "cfg": cfg}
+
+
+def detect_fx(mods):
+    """Which of the proposed repairs C18_F180 / C18_F181 the code under test has: replay the two witnesses on
+    the in-memory dataset alone (the model is then evaluated with x_fx180 / x_fx181 set accordingly)."""
+    out = {}
+    c = _witness_case("F180")
+    smp = run_dataset(c["labels"], c["cfg"], mods, None)[0]
+    out["fx180"] = tuple(smp["image"].shape[-2:]) == (128, 128)
+    c = _witness_case("F181")
+    smp = run_dataset(c["labels"], c["cfg"], mods, None)[0]
+    out["fx181"] = int(smp["instances"].shape[1]) == 1
+    return out
+
+
+def classify(L, cfg, pair, why, res):
+    """The known-finding selector (or None) an oracle failure falls under — the Coq selectors, mirrored."""
+    if pair == ("Str",) or pair == ("Lit",):
+        e = res.get(pair[0])
+        if sel_f182(L, cfg) and (pair == ("Lit",) or (isinstance(e, ValueError) and "at least one array" in str(e))):
+            return SELECTORS["F182"]
+        return None
+    if pair in (("Mem", "Str"), ("Mem", "Lit")):
+        if sel_f180(L, cfg, FX):
+            return SELECTORS["F180"]
+        if sel_f181(L, cfg, FX):
+            return SELECTORS["F181"]
+    return None
+
+
 def run_case(run, c, mods, scratch, wt, origin, lit=None):
     """Implementation part of one pipeline case: oracle + what the model comparison needs."""
     L, cfg = c["labels"], c["cfg"]
@@ -1253,7 +1510,8 @@ def run_case(run, c, mods, scratch, wt, origin, lit=None):
         run.violation("failing-input", {"case": enc(c), "frameworks": list(pair), "oracle": why, "origin": origin,
                                         "real_litdata_chunk_size": lit,
                                         "clause": "same (frame, instance) => same image/crop (<= 1/255), keypoints/"
-                                                  "centroids, confidence maps, PAFs"})
+                                                  "centroids, confidence maps, PAFs"},
+                      selector=classify(L, cfg, tuple(pair), why, res))
     return res, bad
 
 
@@ -1273,6 +1531,10 @@ def _check(run, mods, rng, thorough, scratch):
     wt = detect_write_through(mods)
     run.notes.append(f"generate_centroids writes through the anchor view (DESIGN F5): {wt}; "
                      "the model is evaluated with c_wt set accordingly, the agreement theorems hold for both values")
+    FX.update(detect_fx(mods))
+    run.notes.append(f"repairs detected by replaying the witnesses on the dataset classes: {FX} "
+                     "(x_fx180: datasets resolve max_height/max_width like the chunk functions; x_fx181: "
+                     "SingleInstanceDataset uses max_instances = 1); the model is evaluated with these flags")
     n_cases = 2400 if thorough else 160
     n_blocks = 6600 if thorough else 550
     cases = []
@@ -1288,7 +1550,8 @@ def _check(run, mods, rng, thorough, scratch):
     hazards = 0
     for t, s in (asset_cfgs if thorough else asset_cfgs[:5]):
         cfg = gen_cfg(rng, t, A, thorough)
-        cfg.update(scale=s, max_hw=(384, 384), crop_hw=(160, 160) if t == "centered" else cfg["crop_hw"])
+        cfg.update(scale=s, max_hw=(384, 384), cfg_hw=(None, None) if len(cases) % 2 else (384, 384),
+                   crop_hw=(160, 160) if t == "centered" else cfg["crop_hw"])
         cases.append(("asset", {"labels": A, "cfg": cfg}))
     i = 0
     while len(cases) < n_cases:
@@ -1309,6 +1572,8 @@ def _check(run, mods, rng, thorough, scratch):
     seen = {t: 0 for t in TYPES}
     for ci, (origin, c) in enumerate(cases):
         t = c["cfg"]["mtype"]
+        if sel_f180(c["labels"], c["cfg"], FX) or sel_f181(c["labels"], c["cfg"], FX) or sel_f182(c["labels"], c["cfg"]):
+            continue
         if origin == "gen" and seen[t] < per_type and (len(sample_plan(c["labels"], c["cfg"])) >= 2 or ci > 60):
             if t != "centered" or c["cfg"]["scale"] == 1 or seen[t] > 0:
                 seen[t] += 1
@@ -1325,8 +1590,14 @@ def _check(run, mods, rng, thorough, scratch):
             dist[key] = dist.get(key, 0) + 1
         for key in ("max_hw=None" if cfg["max_hw"][0] is None else
                     "max_hw<frame" if any(v["h"] > cfg["max_hw"][0] or v["w"] > cfg["max_hw"][1] for v in c["labels"]["videos"])
-                    else "max_hw>=frames", "dp_domain" if dp_domain(c["labels"], cfg) else "dp_outside_domain"):
+                    else "max_hw>=frames", "dp_domain" if dp_domain(c["labels"], cfg) else "dp_outside_domain",
+                    "cfg_hw=None" if cfg_hw_of(cfg)[0] is None else "cfg_hw=arg" if cfg_hw_of(cfg) == tuple(cfg["max_hw"])
+                    else "cfg_hw!=arg"):
             dist[key] = dist.get(key, 0) + 1
+        for key, on in (("sel_F180", sel_f180(c["labels"], cfg, FX)), ("sel_F181", sel_f181(c["labels"], cfg, FX)),
+                        ("sel_F182", sel_f182(c["labels"], cfg))):
+            if on:
+                dist[key] = dist.get(key, 0) + 1
         res, bad = run_case(run, c, mods, scratch, wt, origin, lit_for.get(ci))
         impl.append((res, bad))
         ns = 0 if isinstance(res["Mem"], Exception) else len(res["Mem"])
@@ -1387,9 +1658,12 @@ def _check(run, mods, rng, thorough, scratch):
         terms += ts
         owners += [(ci, "fw")] * len(ts)
         dp_plans[ci] = dp_model_terms(c["labels"], c["cfg"], wt)
-        terms += [t for _, _, t in dp_plans[ci]]
-        owners += [(ci, "dp")] * len(dp_plans[ci])
+        real = [t for _, _, t in dp_plans[ci] if t is not None]
+        terms += real
+        owners += [(ci, "dp")] * len(real)
     model = core.coq_eval_sharded(PREAMBLE, terms, "run", "routs", shard=40, jobs=12)
+    eterms = [t for _, c in cases for t in enum_terms(c["labels"], c["cfg"])]
+    emodel = core.coq_eval_sharded(PREAMBLE, eterms, "run_enum", "renum", shard=120, jobs=12)
     by_case, dp_by_case = {}, {}
     for (ci, kind), m in zip(owners, model):
         if kind == "fw":
@@ -1399,13 +1673,23 @@ def _check(run, mods, rng, thorough, scratch):
     disagree = 0
     probe_stats = {}
     dp_stats = {"examples": 0, "raised_as_modelled": 0}
+    enum_stats = {"raises_as_modelled": 0, "frames_skipped_as_modelled": 0}
     for ci, (origin, c) in enumerate(cases):
         L, cfg = c["labels"], c["cfg"]
         res, bad = impl[ci]
         ms = by_case.get(ci, [])
         plan = sample_plan(L, cfg)
-        why = None
+        counts = emodel[3 * ci:3 * ci + 3]
+        why = enum_check(L, cfg, res, counts)
+        if not why and any(cnt is not None and sum(cnt) != len(plan) for cnt in counts):
+            why = f"fw_counts {counts} vs the harness's sample plan of {len(plan)} samples"
+        enum_stats["raises_as_modelled"] += sum(1 for cnt in counts if cnt is None) if not why else 0
+        enum_stats["frames_skipped_as_modelled"] += (sum(1 for n in counts[0] if n == 0) if counts[0] is not None else 0) if not why else 0
         for fi, fw in enumerate(FWS):
+            if why:
+                break
+            if counts[fi] is None:
+                continue            # the framework raises, as the model says (checked by enum_check)
             if isinstance(res[fw], Exception):
                 why = f"{fw} raised {type(res[fw]).__name__}: {res[fw]}"
                 break
@@ -1425,7 +1709,8 @@ def _check(run, mods, rng, thorough, scratch):
                 break
         if not why and "DP" in res:
             try:
-                why = dp_compare_with_model(L, cfg, res["DP"], dp_plans[ci], dp_by_case.get(ci, []), mods, probe_stats)
+                dms = dp_by_case.get(ci, []) + ([[]] if any(t is None for _, _, t in dp_plans[ci]) else [])
+                why = dp_compare_with_model(L, cfg, res["DP"], dp_plans[ci], dms, mods, probe_stats)
             except Exception as e:  # noqa: BLE001
                 why = f"comparison failed: {type(e).__name__}: {e}"
             if why:
@@ -1448,7 +1733,7 @@ def _check(run, mods, rng, thorough, scratch):
                    disagree == 0, f"{disagree} disagreeing cases")
 
     # --- DataPipe blocks
-    kinds = ["norm", "resize", "pad", "centroid", "crop", "cm", "mcm", "ccm", "paf", "sm", "rd"]
+    kinds = ["norm", "resize", "pad", "centroid", "crop", "cm", "mcm", "ccm", "paf", "sm", "rd", "smrun"]
     bterms, bown, blocks = [], [], []
     dp_bad = 0
     for bi in range(n_blocks):
@@ -1486,7 +1771,8 @@ def _check(run, mods, rng, thorough, scratch):
         "input_distribution": dist, "pipeline_cases": len(cases), "samples_per_framework": n_samples,
         "block_cases": n_blocks, "model_disagreements": disagree, "block_model_disagreements": bdis,
         "datapipe_vs_function_failures": dp_bad, "float_hazard_cases_skipped": hazards,
-        "content_map_probe": probe_stats, "composed_datapipe": dp_stats,
+        "content_map_probe": probe_stats, "composed_datapipe": dp_stats, "enumeration": enum_stats,
+        "repairs_detected": dict(FX),
         "real_litdata": {"cases": lit_n, "samples": lit_samples, "bin_files": lit_bins},
         "rule": "pipeline case = (label set: videos, frames, instances with NaN pattern / empty / predicted instances; "
                 "model type, scale, max_stride, is_rgb, max_hw, anchor, crop, sigmas, strides); each case is run through "
@@ -1507,10 +1793,12 @@ def _check(run, mods, rng, thorough, scratch):
     ]
     run.assumptions += [
         "augmentation off (apply_aug=False): with augmentation the samples are random",
-        "every labelled frame has at least one non-empty instance; single-instance label sets have exactly one "
-        "instance per frame (get_max_instances = 1)",
-        "max_height/max_width identical for all frameworks (as ModelTrainer passes them): >= the videos, smaller, or None",
+        "every framework is given the SAME data_config (preprocessing.max_height/max_width: unset, equal to, or different "
+        "from the max_hw argument) and the SAME max_hw argument (>= the videos, smaller, or None), as ModelTrainer does; "
+        "label sets include frames without a non-empty instance and single-instance frames with a predicted instance "
+        "(known findings F180 / F181 / F182 are reported through their selectors)",
         "scales are dyadic rationals; inputs where float64 round(h*ratio) could differ from exact arithmetic are skipped",
+        "anchor index in range (an out-of-range anchor raises IndexError in the code; the model's nth gives the bbox midpoint)",
     ]
     return run.finish()
 
@@ -1521,6 +1809,7 @@ def replay(run: core.Run, path: str) -> int:
     scratch = core.scratch_dir("sv_c18_")
     try:
         wt = detect_write_through(mods)
+        FX.update(detect_fx(mods))
         if "block" in rep:
             r, _, _ = run_block(dec(rep["block"]), mods, wt)
             print(json.dumps({"oracle": r}))
